@@ -55,12 +55,22 @@ def gate_rule(ctx, rep, fn, cap_adt, presented_param, expect_computed, err_order
     eq_edge, ne_edge = d["eq_edge"], d["ne_edge"]
     caps = util.blocks_constructing(body, cap_adt)
     oks = util.blocks_constructing(body, "std::result::Result", "Ok")
-    errs = [bi for bi, _, _ in util.blocks_constructing(body, "std::result::Result", "Err") + util.blocks_constructing(body, "error::MatchProofsError")]
+    # the refusal is the `Err(..)` value (or the residual `?` hands on); the error *payload* may be
+    # built before the decision (`.ok_or(MatchProofsError { .. })` evaluates its argument eagerly)
+    errs = [bi for bi, _, _ in util.blocks_constructing(body, "std::result::Result", "Err")]
     errs += [bb for bb, i in se.term_info.items() if i.get("k") == "call" and "FromResidual" in i["name"]]
+    if not errs:
+        errs = [bi for bi, _, _ in util.blocks_constructing(body, "error::MatchProofsError")]
     if not caps or not oks:
         rep.violation("gate", fn, "capability", "no construction of %s / Ok found" % cap_adt, body.loc())
         return
-    bad = [bi for bi, _, _ in caps + oks if not cfg.must_pass_edge(body, eq_edge, bi)]
+    # the capability can leave the function only inside `Ok(..)` (by the return type): one built
+    # before the decision and dropped on refusal (`.then_some(client)`) authenticates nobody
+    out_ty = ctx.fb.ty(body.d["output"])
+    targs = out_ty.targs() if out_ty.k == "adt" and out_ty.path == "std::result::Result" else []
+    only_in_ok = len(targs) == 2 and util.type_mentions(ctx.fb, targs[0], cap_adt) and not util.type_mentions(ctx.fb, targs[1], cap_adt, by_value_only=False) and not any(util.type_mentions(ctx.fb, body.local_ty(i), cap_adt, by_value_only=False) for i in range(1, body.arg_count + 1))
+    gated = oks if only_in_ok else caps + oks
+    bad = [bi for bi, _, _ in gated if not cfg.must_pass_edge(body, eq_edge, bi)]
     rep.check(not bad, "gate", fn, "accept-only-on-equal", "every path to %s/Ok crosses the equal edge bb%d->bb%d" % (cap_adt, eq_edge[0], eq_edge[1]),
               "a path reaches the construction of %s/Ok (bb%s) without crossing the equal edge of the proof comparison" % (cap_adt, bad), body.loc(bad[0]) if bad else None)
     bad = [bi for bi in errs if not cfg.must_pass_edge(body, ne_edge, bi)]
